@@ -1,7 +1,9 @@
 #!/usr/bin/env python3
 """Run every seeded change against the checks listed for it; update seeded/<id>/meta.json.
 
-usage: tools/seedmatrix.py [seed-id ...] [--tier quick]
+usage: tools/seedmatrix.py [seed-id ...] [--tier quick] [--no-meta]
+(VERIF_SEED is inherited by the checks: `VERIF_SEED=7 tools/seedmatrix.py --no-meta` shows whether a
+detection depends on the random seed; --no-meta leaves the stored results alone)
 """
 import json, os, subprocess, sys, re
 
@@ -29,6 +31,7 @@ for sid in seeds:
         res[c] = {0: "MISSED", 1: "detected", 2: "inconclusive", 9: "patch-does-not-apply"}.get(code, f"exit {code}")
     meta.setdefault("results", {})[tier] = res
     meta["detected_by"] = sorted(c for c, v in res.items() if v == "detected")
-    json.dump(meta, open(mp, "w"), indent=1)
+    if "--no-meta" not in sys.argv:
+        json.dump(meta, open(mp, "w"), indent=1)
     rows.append((sid, res))
     print(sid, res, flush=True)
